@@ -460,6 +460,7 @@ def jobs(tier, seed):
         out.append({"part": "garbage", "calls": calls, "tier": tier})
     out.append({"part": "client", "tier": tier})
     out.append({"part": "exposed", "tier": tier})
+    out.append({"part": "client_big", "tier": tier})
     out.append({"part": "sync", "tier": tier})
     sets = call_sets(tier)
     for lo in range(0, len(sets), 6):
@@ -678,6 +679,82 @@ def run_client(spec, acc):
                     __import__("os").environ["STEPUP_DEBUG"] = saved_debug
                 env.close()
     acc.sample({"client_scenarios": sorted(scenarios)})
+
+
+def run_client_big(spec, acc):
+    """Concurrent calls on one asynchronous client while the transport is slow: every `drain()`
+    of the shared writer yields (once, or several times) so that another caller gets to write.
+    Payloads of 10 B to 1 MiB in every combination over three callers. What the client put on
+    the wire must parse into exactly one intact frame per call, each decoding to the call made."""
+    import pickle
+
+    from stepup.core.rpc import SocketAsyncRPCClient, _encode_body, _encode_message
+
+    sizes = [10, 70_000, 300_000] if spec["tier"] == "quick" else [10, 65_536, 70_000, 300_000, 1_048_576]
+    for combo in itertools.product(sizes, repeat=3):
+        for yields in (1, 3):
+            env = Env()
+            saved = asyncio.open_unix_connection
+            try:
+                reader = asyncio.StreamReader(loop=env.loop)
+                writer = Writer()
+
+                async def drain(writer=writer, yields=yields):
+                    for _ in range(yields):
+                        await asyncio.sleep(0)
+
+                writer.drain = drain
+
+                async def fake_open(path, reader=reader, writer=writer):
+                    return reader, writer
+
+                asyncio.open_unix_connection = fake_open
+                client = SocketAsyncRPCClient("/nowhere")
+                results = {}
+                payloads = {i: bytes([65 + i]) * n for i, n in zip((1, 2, 3), combo, strict=True)}
+
+                async def one(i, client=client, results=results, payloads=payloads):
+                    try:
+                        results[i] = ("value", await client(f"proc{i}", payloads[i]))
+                    except BaseException as exc:  # noqa: BLE001
+                        results[i] = ("exc", type(exc))
+
+                tasks = [env.loop.create_task(one(i)) for i in (1, 2, 3)]
+                env.settle()
+                acc.evaluations += 1
+                acc.nontrivial.add(h8(["big", combo, yields]))
+                acc.states.add(h8(["big", combo, yields]))
+                what = {"payload_sizes": combo, "yields_per_drain": yields}
+                frames = writer.frames()
+                seen = {}
+                bad = None
+                for cid, body in frames:
+                    try:
+                        call = pickle.loads(body)
+                        seen[cid] = (call.name, len(call.args[0]), set(call.args[0]))
+                    except Exception as exc:  # noqa: BLE001
+                        bad = f"frame {cid}: {type(exc).__name__}"
+                want = {i: (f"proc{i}", combo[i - 1], {65 + i}) for i in (1, 2, 3)}
+                if bad or sorted(seen.values(), key=repr) != sorted(want.values(), key=repr):
+                    acc.violation("C16|client-big|frames-spliced",
+                                  {**what, "decoded": {k: (v[0], v[1], sorted(v[2])) for k, v in seen.items()},
+                                   "undecodable": bad, "frames": [(c, len(b or b"")) for c, b in frames]}, None)
+                    continue
+                # answer every call with the size of its payload and check the pairing
+                for cid, body in frames:
+                    call = pickle.loads(body)
+                    reader.feed_data(_encode_message(cid, _encode_body((call.name, len(call.args[0])))))
+                env.settle()
+                reader.feed_eof()
+                env.settle()
+                for i in (1, 2, 3):
+                    if results.get(i) != ("value", (f"proc{i}", combo[i - 1])):
+                        acc.violation("C16|client-big|wrong-result", {**what, "call": i, "results": repr(results)[:300]}, None)
+                if not all(t.done() for t in tasks):
+                    acc.violation("C16|client-big|caller-blocked", what, None)
+            finally:
+                asyncio.open_unix_connection = saved
+                env.close()
 
 
 class ScriptedSocket:
@@ -1064,6 +1141,8 @@ def run_job(spec):
         run_realsocket(spec, acc)
     elif part == "exposed":
         run_exposed(spec, acc)
+    elif part == "client_big":
+        run_client_big(spec, acc)
     return acc
 
 
